@@ -57,7 +57,8 @@ else:
 XPATH_NSDICT = dict(xop=NS_XOP)
 
 
-def _join_attachment(ns_soap_env, href_id, envelope, payload, prefix=True):
+def _join_attachment(ns_soap_env, href_id, envelope, payload, prefix=True,
+                                                                   parser=None):
     """Places the data from an attachment back into a SOAP message, replacing
     its xop:Include element or href.
 
@@ -69,10 +70,11 @@ def _join_attachment(ns_soap_env, href_id, envelope, payload, prefix=True):
                       content-location.  It prefixes a "cid:" to the href value.
     :param  envelope: soap envelope string to be operated on
     :param  payload:  attachment data
+    :param  parser:   the parser to read the envelope with
     """
 
     # grab the XML element of the message in the SOAP body
-    soaptree = etree.fromstring(envelope)
+    soaptree = etree.fromstring(envelope, parser)
     soapbody = soaptree.find("{%s}Body" % ns_soap_env)
 
     if soapbody is None:
@@ -99,6 +101,13 @@ def _join_attachment(ns_soap_env, href_id, envelope, payload, prefix=True):
         parent.text = payload
 
     return etree.tostring(soaptree), num
+
+
+def _get_parser(ctx):
+    # the envelope of a multipart request is read with the parser settings of
+    # the protocol, like any other request: lxml's default parser expands
+    # entities.
+    return etree.XMLParser(**ctx.in_protocol.parser_kwargs)
 
 
 def collapse_swa(ctx, content_type, ns_soap_env):
@@ -180,13 +189,14 @@ def collapse_swa(ctx, content_type, ns_soap_env):
         # Check for Content-ID and make replacement
         if cid:
             soapmsg, numreplaces = _join_attachment(
-                                             ns_soap_env, cid, soapmsg, payload)
+                                      ns_soap_env, cid, soapmsg, payload,
+                                      parser=_get_parser(ctx))
 
         # Check for Content-Location and make replacement
         if cloc and not cid and not numreplaces:
             soapmsg, numreplaces = _join_attachment(
                                             ns_soap_env, cloc, soapmsg, payload,
-                                                                          False)
+                                            False, parser=_get_parser(ctx))
 
     if soapmsg is None:
         raise ValidationError(None, "Invalid MtoM request")
